@@ -356,6 +356,12 @@ static inline Plan gen_tweak(Rng rng) {
             Op &o = G.p.ops.back();
             if (style == 2 && !prev.empty()) { o.a = prev; o.size = (uint32_t)prev.size(); }                              // same value again
             if (style == 3 && !prev.empty()) { o.a = prev; o.size = (uint32_t)prev.size(); o.a[G.r.below(o.size)] ^= (uint8_t)(1u << G.r.below(8)); }   // one bit away
+            if (style >= 4 && style <= 6 && prev.size() == bs) {   // related tweaks: counter step, same first half, same second half
+                o.a = prev; o.size = bs;
+                if (style == 4) o.a[bs - 1] = (uint8_t)(o.a[bs - 1] + 1);
+                else if (style == 5) for (unsigned q = bs / 2; q < bs; ++q) o.a[q] = G.r.byte();
+                else for (unsigned q = 0; q < bs / 2; ++q) o.a[q] = G.r.byte();
+            }
             if (!(o.flags & F_NULLA)) prev = o.a;
             if (G.r.chance(1, 2)) { Op c2 = o; c2.slot = ct; G.p.ops.push_back(c2); G.setctr(ct); }
         } else if (c < 75) G.block(ks);
